@@ -220,6 +220,10 @@ func (c *Cookie) AppendBytes(dst []byte) []byte {
 	if len(c.key) > 0 {
 		dst = append(dst, c.key...)
 		dst = append(dst, '=')
+	} else if bytes.IndexByte(c.value, '=') >= 0 {
+		// a nameless cookie whose value contains '=': without a leading '=' every recipient
+		// (Cookie.ParseBytes too) takes the part of the value in front of its first '=' for the name
+		dst = append(dst, '=')
 	}
 	if n := len(c.value); n > 0 && (c.value[0] == ' ' || c.value[n-1] == ' ') {
 		// recipients (Cookie.ParseBytes too) trim the spaces around a bare value and keep
